@@ -324,72 +324,308 @@ Definition proc_entry (s : state) (e : entry) : Prop :=
   exists pid a, e = LProc (s_now s) (s_phase s) (s_mt s) (s_readonly s) pid a
                 /\ (s_readonly s = true -> forall p v, a <> AWrite p v).
 
+Lemma one_entry_case : forall s s0 s' pid a,
+  same_lg s s0 -> same_ctl s s0 -> same_lg (log_proc pid a s0) s' -> halted s = false ->
+  (s_readonly s = true -> forall p v, a <> AWrite p v) ->
+  halted s' = false /\ exists new, s_log s' = new ++ s_log s /\ Forall (proc_entry s) new.
+Proof.
+  intros s s0 s' pid a (L0 & E0 & O0) (C1 & C2 & C3 & C4) (L1 & E1 & O1) H Ha.
+  pose proof (halted_false_err s H) as He.
+  assert (Ho : s_oof s = false) by (unfold halted in H; apply orb_false_elim in H; tauto).
+  split.
+  - unfold halted. rewrite E1, O1, log_proc_err, log_proc_oof, E0, O0, He, Ho. reflexivity.
+  - exists [LProc (s_now s) (s_phase s) (s_mt s) (s_readonly s) pid a]. split.
+    + rewrite L1, log_proc_log by congruence. rewrite C1, C2, C3, C4, L0. reflexivity.
+    + constructor; [|constructor]. exists pid, a. split; [reflexivity | exact Ha].
+Qed.
+
 Lemma frame_step_log : forall cfg f s s',
   frame_step cfg f s s' -> halted s = false ->
   halted s' = true \/
   (halted s' = false /\ exists new, s_log s' = new ++ s_log s /\ Forall (proc_entry s) new).
 Proof.
-  intros cfg f s s' F H. pose proof (halted_false_err s H) as He.
-  assert (Ho : s_oof s = false) by (unfold halted in H; apply orb_false_elim in H; tauto).
-  assert (P1 : forall pid a, (s_readonly s = true -> forall p v, a <> AWrite p v) ->
-               proc_entry s (LProc (s_now s) (s_phase s) (s_mt s) (s_readonly s) pid a)).
-  { intros pid a Ha. exists pid, a. split; [reflexivity | exact Ha]. }
-  assert (NH : forall x, s_err x = false -> s_oof x = false -> halted x = false).
-  { intros x A B. unfold halted. rewrite A, B. reflexivity. }
+  intros cfg f s s' F H.
   inversion F; subst; clear F.
-  - right. split; [apply NH; [rewrite log_proc_err | rewrite log_proc_oof]; assumption|].
-    exists [LProc (s_now s) (s_phase s) (s_mt s) (s_readonly s) pid AStart]. split; [apply log_proc_log; exact He|].
-    constructor; [apply P1; intros; discriminate | constructor].
-  - right. destruct (cont_states_lg _ _ _ H0) as (L & E & O). split; [apply NH; congruence|].
+  - right. eapply one_entry_case with (s0 := s); try apply same_lg_refl; try apply same_ctl_refl; try exact H.
+    intros; discriminate.
+  - right. destruct (cont_states_lg _ _ _ H0) as (L & E & O). split; [unfold halted in *; congruence|].
     exists []. split; [exact L | constructor].
   - right. unfold finish_proc.
-    match goal with |- context [fold_left ?f ?js ?x] => destruct (fold_enqueue_lg js x) as (L & E & O) end.
-    simpl in L, E, O. split; [apply NH; [rewrite E, log_proc_err | rewrite O, log_proc_oof]; assumption|].
-    exists [LProc (s_now s) (s_phase s) (s_mt s) (s_readonly s) pid AEnd]. split.
-    + rewrite L. apply (log_proc_log pid AEnd s He).
-    + constructor; [apply P1; intros; discriminate | constructor].
-  - right. destruct (cont_states_lg _ _ _ H0) as (L & E & O). simpl in L, E, O.
-    split; [apply NH; [rewrite E, log_proc_err | rewrite O, log_proc_oof]; assumption|].
-    eexists [_]. split; [rewrite L; apply log_proc_log; exact He|].
-    constructor; [apply P1; intros; discriminate | constructor].
+    eapply one_entry_case with (s0 := s) (a := AEnd); try apply same_lg_refl; try apply same_ctl_refl; try exact H.
+    + match goal with |- context [fold_left ?f ?js ?x] => pose proof (fold_enqueue_lg js x) as Q end.
+      eapply same_lg_trans; [|exact Q]. repeat split.
+    + intros; discriminate.
+  - right. eapply one_entry_case with (s0 := upd_proc pid (with_script rest) s);
+      [repeat split | repeat split | apply (cont_states_lg _ _ _ H0) | exact H | intros; discriminate].
   - left. unfold halted. simpl. reflexivity.
-  - right. destruct (cont_states_lg _ _ _ H1) as (L & E & O). simpl in L, E, O.
-    split; [apply NH; [rewrite E, log_proc_err | rewrite O, log_proc_oof]; assumption|].
-    eexists [_]. split; [rewrite L; apply log_proc_log; exact He|].
-    constructor; [apply P1; intros Ro; congruence | constructor].
-  - right. simpl. split; [apply NH; [rewrite log_proc_err | rewrite log_proc_oof]; assumption|].
-    eexists [_]. split; [apply (log_proc_log pid _ (upd_proc pid (with_script rest) s)); exact He|].
-    constructor; [apply P1; intros; discriminate | constructor].
-  - right. destruct (cont_states_lg _ _ _ H1) as (L & E & O). simpl in L, E, O.
-    split; [apply NH; [rewrite E, log_proc_err | rewrite O, log_proc_oof]; assumption|].
-    eexists [_]. split; [rewrite L; apply log_proc_log; exact He|].
-    constructor; [apply P1; intros; destruct H0; subst; discriminate | constructor].
-  - right. simpl. split; [apply NH; [rewrite log_proc_err | rewrite log_proc_oof]; assumption|].
-    eexists [_]. split; [apply (log_proc_log pid _ (upd_proc pid (with_script rest) s)); exact He|].
-    constructor; [apply P1; intros; discriminate | constructor].
-  - right. simpl.
-    match goal with |- context [suspend_waitclk ?c ?p ?k ?h ?x] => destruct (suspend_waitclk_lg c p k h x) as (L & E & O) end.
-    split; [apply NH; [rewrite E, log_proc_err | rewrite O, log_proc_oof]; assumption|].
-    eexists [_]. split; [rewrite L; apply (log_proc_log pid _ (upd_proc pid (with_script rest) s)); exact He|].
-    constructor; [apply P1; intros; discriminate | constructor].
-  - right. simpl.
-    match goal with |- context [suspend_waitfor ?p ?q ?x] => destruct (suspend_waitfor_lg p q x) as (L & E & O) end.
-    split; [apply NH; [rewrite E, log_proc_err | rewrite O, log_proc_oof]; assumption|].
-    eexists [_]. split; [rewrite L; apply (log_proc_log pid _ (upd_proc pid (with_script rest) s)); exact He|].
-    constructor; [apply P1; intros; discriminate | constructor].
-  - right. simpl.
-    match goal with |- context [suspend_waitchange ?p ?q ?x] => destruct (suspend_waitchange_lg p q x) as (L & E & O) end.
-    unfold log_watch in *.
-    split; [apply NH; [rewrite E, !log_proc_err | rewrite O, !log_proc_oof]; assumption|].
-    eexists [_; _]. split.
-    + rewrite L. rewrite log_proc_log by (rewrite log_proc_err; exact He).
-      rewrite (log_proc_log pid _ (upd_proc pid (with_script rest) s)) by exact He.
-      destruct (log_proc_ctl pid (ASusp (WkChange m) (s_nextid (upd_proc pid (with_script rest) s))) (upd_proc pid (with_script rest) s)) as (C1 & C2 & C3 & C4).
-      rewrite C1, C2, C3, C4. reflexivity.
-    + constructor; [apply P1; intros; discriminate|]. constructor; [apply P1; intros; discriminate | constructor].
-  - right. simpl. split; [apply NH; [rewrite log_proc_err | rewrite log_proc_oof]; assumption|].
-    eexists [_]. split; [apply (log_proc_log pid _ (upd_proc pid (with_script rest) s)); exact He|].
-    constructor; [apply P1; intros; discriminate | constructor].
+  - right. eapply one_entry_case with (s0 := upd_proc pid (with_script rest) s) (a := AWrite p v);
+      [repeat split | repeat split | | exact H | intros; congruence].
+    eapply same_lg_trans; [|apply (cont_states_lg _ _ _ H1)]. repeat split.
+  - right. eapply one_entry_case with (s0 := upd_proc pid (with_script rest) s)
+             (a := AFork sid (length (s_procs (upd_proc pid (with_script rest) s))));
+      [repeat split | repeat split | | exact H | intros; discriminate]. repeat split.
+  - right. eapply one_entry_case with (s0 := upd_proc pid (with_script rest) s);
+      [repeat split | repeat split | apply (cont_states_lg _ _ _ H1) | exact H
+       | intros Ro p' v' Eq; match goal with Hd : _ \/ _ |- _ => destruct Hd; subst; discriminate end].
+  - right. eapply one_entry_case with (s0 := upd_proc pid (with_script rest) s) (a := AJoinWait k);
+      [repeat split | repeat split | | exact H | intros; discriminate]. repeat split.
+  - right. eapply one_entry_case with (s0 := upd_proc pid (with_script rest) s);
+      [repeat split | repeat split | apply suspend_waitclk_lg | exact H | intros; discriminate].
+  - right. eapply one_entry_case with (s0 := upd_proc pid (with_script rest) s);
+      [repeat split | repeat split | apply suspend_waitfor_lg | exact H | intros; discriminate].
+  - right. (* two entries: ASusp, AWatch *)
+    cbv zeta.
+    set (s0 := upd_proc pid (with_script rest) s).
+    destruct (one_entry_case s s0 (log_proc pid (ASusp (WkChange m) (s_nextid s0)) s0) pid (ASusp (WkChange m) (s_nextid s0)))
+      as (H1 & n1 & L1 & F1); [repeat split | repeat split | apply same_lg_refl | exact H | intros; discriminate |].
+    set (s1 := log_proc pid (ASusp (WkChange m) (s_nextid s0)) s0) in *.
+    destruct (one_entry_case s1 s1 (suspend_waitchange pid m (log_watch pid m s1)) pid (AWatch (read_mask m s1)))
+      as (H2 & n2 & L2 & F2); [apply same_lg_refl | apply same_ctl_refl | apply suspend_waitchange_lg | exact H1 | intros; discriminate |].
+    split; [exact H2|]. exists (n2 ++ n1). split; [rewrite L2, L1, app_assoc; reflexivity|].
+    apply Forall_app. split; [|exact F1].
+    assert (C : same_ctl s s1) by (eapply same_ctl_trans; [|apply log_proc_ctl]; repeat split).
+    destruct C as (C1 & C2 & C3 & C4).
+    eapply Forall_impl; [|exact F2]. intros e (pid' & a' & -> & Ha). exists pid', a'. rewrite C1, C2, C3, C4. split; [reflexivity|].
+    intro Ro. apply Ha. congruence.
+  - right. eapply one_entry_case with (s0 := upd_proc pid (with_script rest) s) (a := ASusp WkStable 0);
+      [repeat split | repeat split | | exact H | intros; discriminate]. repeat split.
+Qed.
+
+Lemma proc_entry_ctl : forall s s1 e, same_ctl s s1 -> proc_entry s1 e -> proc_entry s e.
+Proof.
+  intros s s1 e (C1 & C2 & C3 & C4) (pid & a & -> & Ha). exists pid, a. rewrite C1, C2, C3, C4.
+  split; [reflexivity|]. intro Ro. apply Ha. congruence.
+Qed.
+
+Lemma log_wake_log : forall pid w g s, halted s = false ->
+  halted (log_wake pid w g s) = false /\
+  exists new, s_log (log_wake pid w g s) = new ++ s_log s /\ Forall (proc_entry s) new.
+Proof.
+  intros pid w g s H. unfold log_wake.
+  destruct (one_entry_case s s (log_proc pid (AWake w g) s) pid (AWake w g))
+    as (H1 & n1 & L1 & F1); [apply same_lg_refl | apply same_ctl_refl | apply same_lg_refl | exact H | intros; discriminate |].
+  destruct w; try (split; [exact H1 | exists n1; split; assumption]).
+  set (s1 := log_proc pid (AWake (WkChange mask) g) s) in *.
+  destruct (one_entry_case s1 s1 (log_watch pid mask s1) pid (AWatch (read_mask mask s1)))
+    as (H2 & n2 & L2 & F2); [apply same_lg_refl | apply same_ctl_refl | apply same_lg_refl | exact H1 | intros; discriminate |].
+  split; [exact H2|]. exists (n2 ++ n1). split; [rewrite L2, L1, app_assoc; reflexivity|].
+  apply Forall_app. split; [|exact F1].
+  eapply Forall_impl; [|exact F2]. intros e. apply proc_entry_ctl. apply log_proc_ctl.
+Qed.
+
+Lemma task_head_log : forall t s stk s', task_head t s = (stk, s') -> halted s = false ->
+  halted s' = false /\ exists new, s_log s' = new ++ s_log s /\ Forall (proc_entry s) new.
+Proof.
+  intros t s stk s' E H.
+  assert (E' : s' = snd (task_head t s)) by (rewrite E; reflexivity). clear E. subst s'.
+  destruct t as [pid|pid w g|pid n]; simpl.
+  - split; [exact H|]. exists []. split; [reflexivity | constructor].
+  - destruct (log_wake_log pid w g s H) as (H1 & n1 & L1 & F1).
+    destruct (p_fiber (get_proc pid (log_wake pid w g s))); simpl.
+    + split; [exact H1|]. exists n1. split; assumption.
+    + split; [exact H1|]. exists n1. split; assumption.
+  - destruct n; simpl; [split; [exact H|]; exists []; split; [reflexivity | constructor]|].
+    destruct (p_script (get_proc pid s)); simpl; (split; [exact H|]; exists []; split; [reflexivity | constructor]).
+Qed.
+
+(* appending entries that contain no write keeps "no write since the last reevaluate" *)
+Lemma nwb_app_nowrite : forall new l,
+  Forall (fun e => forall t ph mt ro pid p v, e <> LProc t ph mt ro pid (AWrite p v)) new ->
+  nwb l = true -> nwb (new ++ l) = true.
+Proof.
+  induction new as [|e r IH]; intros l F H; simpl; [exact H|].
+  inversion F as [|? ? He Fr]; subst.
+  destruct e; try (apply IH; assumption); try reflexivity.
+  destruct a; try (apply IH; assumption).
+  exfalso. eapply He. reflexivity.
+Qed.
+
+Lemma proc_entries_ro_nowrite : forall s new, s_readonly s = true -> Forall (proc_entry s) new ->
+  Forall (fun e => forall t ph mt ro pid p v, e <> LProc t ph mt ro pid (AWrite p v)) new.
+Proof.
+  intros s new Ro F. eapply Forall_impl; [|exact F].
+  intros e (pid & a & -> & Ha) t ph mt ro pid' p v Eq. inversion Eq; subst. eapply Ha; [exact Ro | reflexivity].
+Qed.
+
+(* ------------------------------------------------------------------------- *)
+(** * Simulator-level building blocks: what they leave alone *)
+
+(* fields other than the queue / bookkeeping lists *)
+Definition same_top (s s' : state) : Prop :=
+  same_ctl s s' /\ s_err s' = s_err s /\ s_oof s' = s_oof s /\ s_ready s' = s_ready s.
+Lemma same_top_refl : forall s, same_top s s.
+Proof. intro s. split; [apply same_ctl_refl | repeat split]. Qed.
+Lemma same_top_trans : forall a b c, same_top a b -> same_top b c -> same_top a c.
+Proof.
+  intros a b c (A1 & A2 & A3 & A4) (B1 & B2 & B3 & B4).
+  split; [eapply same_ctl_trans; eassumption | repeat split; congruence].
+Qed.
+Lemma same_top_halted : forall s s', same_top s s' -> halted s' = halted s.
+Proof. intros s s' (_ & E & O & _). unfold halted. congruence. Qed.
+
+Lemma add_log_top : forall e s, same_top s (add_log e s).
+Proof.
+  intros e s. split; [apply add_log_ctl|]. rewrite add_log_err, add_log_oof. repeat split.
+  unfold add_log. destruct (s_err s); reflexivity.
+Qed.
+Lemma push_event_top : forall e s, same_top s (push_event e s).
+Proof. intros. split; [apply push_event_ctl | repeat split]. Qed.
+
+Lemma fold_push_top : forall {A} (f : A -> event) (l : list A) s,
+  same_top s (fold_left (fun st a => push_event (f a) st) l s).
+Proof.
+  induction l as [|a r IH]; intro s; simpl; [apply same_top_refl|].
+  eapply same_top_trans; [apply push_event_top | apply IH].
+Qed.
+
+Lemma handle_trigger_top : forall cfg e s, same_top s (handle_trigger cfg e s).
+Proof.
+  intros cfg e s. unfold handle_trigger.
+  eapply same_top_trans; [|apply push_event_top]. eapply same_top_trans; [|apply push_event_top].
+  set (s0 := add_log (LTrigger (e_time e) (e_pin e) (e_rising e)) s).
+  assert (T0 : same_top s s0) by apply add_log_top.
+  destruct (e_rising e); [|exact T0].
+  eapply same_top_trans; [exact T0|].
+  eapply same_top_trans; [apply (fold_push_top (awaiter_event e) (get_await (e_pin e) s0) s0)|].
+  destruct (e_pin e); split; repeat split.
+Qed.
+
+Lemma handle_value_change_top : forall cfg e s, same_top s (handle_value_change cfg e s).
+Proof.
+  intros cfg e s. unfold handle_value_change.
+  destruct (e_rising e); (eapply same_top_trans; [|apply add_log_top]); [split; repeat split | apply same_top_refl].
+Qed.
+
+Lemma pop_event_top : forall s e s1, pop_event s = Some (e, s1) -> same_top s s1 /\ s_log s1 = s_log s.
+Proof.
+  intros s e s1 P. unfold pop_event in P.
+  assert (A : forall q, same_top s (set_queue q s) /\ s_log (set_queue q s) = s_log s)
+    by (intro; split; [split; repeat split | reflexivity]).
+  assert (B : forall q a b, same_top s (set_tb a b (set_queue q s)) /\ s_log (set_tb a b (set_queue q s)) = s_log s)
+    by (intros; split; [split; repeat split | reflexivity]).
+  destruct (s_queue s) as [|e1 [|e2 r]]; [discriminate | inversion P; subst; apply A |].
+  destruct (e_type e1), (e_type e2); try (inversion P; subst; apply A).
+  destruct (equivalent e1 e2 && (tie_observable s e1 || tie_observable s e2)).
+  - destruct (s_tb s) as [|[|] tb]; inversion P; subst; apply B.
+  - inversion P; subst; apply A.
+Qed.
+
+Lemma pop_event_nonempty : forall s, s_queue s <> [] -> pop_event s <> None.
+Proof.
+  intros s H. unfold pop_event. destruct (s_queue s) as [|e1 [|e2 r]]; [contradiction | discriminate |].
+  destruct (e_type e1), (e_type e2); try discriminate.
+  destruct (equivalent e1 e2 && (tie_observable s e1 || tie_observable s e2)); [|discriminate].
+  destruct (s_tb s) as [|[|] tb]; discriminate.
+Qed.
+
+Lemma top_matches_nonempty : forall a b s, top_matches a b s = true -> s_queue s <> [].
+Proof. intros a b s H E. unfold top_matches in H. rewrite E in H. discriminate. Qed.
+
+Lemma event_head_ctl : forall cfg e s, same_ctl s (event_head cfg e s).
+Proof.
+  intros cfg e s. unfold event_head. destruct (e_type e).
+  - apply handle_trigger_top.
+  - apply enqueue_ctl.
+  - apply handle_value_change_top.
+  - apply same_ctl_refl.
+Qed.
+Lemma event_head_halted : forall cfg e s, halted (event_head cfg e s) = halted s.
+Proof.
+  intros cfg e s. unfold event_head. destruct (e_type e).
+  - apply same_top_halted. apply handle_trigger_top.
+  - reflexivity.
+  - apply same_top_halted. apply handle_value_change_top.
+  - reflexivity.
+Qed.
+Lemma event_head_ready : forall cfg e s, e_type e <> SimProcResume -> s_ready (event_head cfg e s) = s_ready s.
+Proof.
+  intros cfg e s H. unfold event_head. destruct (e_type e); try congruence.
+  - apply handle_trigger_top.
+  - apply handle_value_change_top.
+Qed.
+
+Lemma check_watches_top : forall s, same_top s (check_watches s).
+Proof.
+  intro s. unfold check_watches.
+  set (fired := filter (watch_changed (s_circ s)) (s_watches s)).
+  assert (G : forall l st, same_top st (fold_left (fun st w => push_event (watch_event s w)
+                (add_log (LFire (w_pid w) (w_refs w) (map (fun x => circ_read x (s_circ s)) (w_mask w))) st)) l st)).
+  { induction l as [|w r IH]; intro st; simpl; [apply same_top_refl|].
+    eapply same_top_trans; [|apply IH]. eapply same_top_trans; [apply add_log_top | apply push_event_top]. }
+  eapply same_top_trans; [apply (G fired s)|]. split; repeat split.
+Qed.
+
+Lemma reevaluate_top : forall s, same_top s (reevaluate s).
+Proof. intro s. unfold reevaluate. eapply same_top_trans; [|apply add_log_top]. split; repeat split. Qed.
+
+Lemma micro_end_fields : forall s,
+  s_now (micro_end s) = s_now s /\ s_phase (micro_end s) = s_phase s /\ s_readonly (micro_end s) = s_readonly s
+  /\ s_ready (micro_end s) = s_ready s /\ halted (micro_end s) = halted s /\ s_mt (micro_end s) = N.succ (s_mt s).
+Proof.
+  intro s. unfold micro_end.
+  set (s2 := reevaluate s). set (s3 := check_watches s2).
+  set (s4 := add_log (LMicro (s_now s3) (s_phase s3) (s_mt s3)) s3).
+  assert (T : same_top s s4).
+  { eapply same_top_trans; [apply reevaluate_top|]. eapply same_top_trans; [apply check_watches_top | apply add_log_top]. }
+  destruct T as ((C1 & C2 & C3 & C4) & E & O & R). simpl.
+  repeat split; try assumption; try congruence. unfold halted. simpl. congruence.
+Qed.
+
+(* after the end of a micro tick no write is pending *)
+Lemma nwb_skip : forall e l, (forall t ph mt ro pid a, e <> LProc t ph mt ro pid a) -> e <> LReeval -> nwb (e :: l) = nwb l.
+Proof.
+  intros e l H1 H2. destruct e; try reflexivity; [exfalso; eapply H1; reflexivity | congruence].
+Qed.
+
+Lemma check_watches_log : forall s, s_err s = false ->
+  exists fires, s_log (check_watches s) = fires ++ s_log s /\ Forall (fun e => exists p r c, e = LFire p r c) fires.
+Proof.
+  intros s He. unfold check_watches.
+  set (fired := filter (watch_changed (s_circ s)) (s_watches s)).
+  assert (G : forall l st, s_err st = false ->
+    exists fires, s_log (fold_left (fun st w => push_event (watch_event s w)
+                (add_log (LFire (w_pid w) (w_refs w) (map (fun x => circ_read x (s_circ s)) (w_mask w))) st)) l st) = fires ++ s_log st
+                  /\ Forall (fun e => exists p r c, e = LFire p r c) fires).
+  { induction l as [|w r IH]; intros st Hs; simpl; [exists []; split; [reflexivity | constructor]|].
+    set (st1 := push_event (watch_event s w) (add_log (LFire (w_pid w) (w_refs w) (map (fun x => circ_read x (s_circ s)) (w_mask w))) st)).
+    assert (E1 : s_err st1 = false) by (unfold st1; simpl; rewrite add_log_err; exact Hs).
+    destruct (IH st1 E1) as (fs & L & F).
+    exists (fs ++ [LFire (w_pid w) (w_refs w) (map (fun x => circ_read x (s_circ s)) (w_mask w))]). split.
+    - rewrite L. unfold st1. simpl. rewrite add_log_log, Hs. rewrite <- app_assoc. reflexivity.
+    - apply Forall_app. split; [exact F|]. constructor; [eexists _, _, _; reflexivity | constructor]. }
+  destruct (G fired s He) as (fs & L & F). exists fs. split; [exact L | exact F].
+Qed.
+
+Lemma nwb_fires : forall fires l, Forall (fun e => exists p r c, e = LFire p r c) fires -> nwb (fires ++ l) = nwb l.
+Proof.
+  induction fires as [|e r IH]; intros l F; simpl; [reflexivity|].
+  inversion F as [|? ? (p & rr & c & ->) Fr]; subst. simpl. apply IH. exact Fr.
+Qed.
+
+Lemma micro_end_nwb : forall s, s_err s = false -> nwb (s_log (micro_end s)) = true.
+Proof.
+  intros s He. unfold micro_end.
+  set (s2 := reevaluate s). set (s3 := check_watches s2).
+  assert (E2 : s_err s2 = false) by (unfold s2, reevaluate; rewrite add_log_err; exact He).
+  assert (L2 : s_log s2 = LReeval :: s_log s) by (unfold s2, reevaluate; rewrite add_log_log; simpl; rewrite He; reflexivity).
+  destruct (check_watches_log s2 E2) as (fs & L3 & F3). fold s3 in L3.
+  assert (E3 : s_err s3 = false) by (destruct (check_watches_top s2) as (_ & E & _); fold s3 in E; congruence).
+  simpl. rewrite add_log_log, E3, L3. simpl. rewrite nwb_fires by exact F3. rewrite L2. reflexivity.
+Qed.
+
+Lemma phase_begin_fields : forall ph s,
+  s_now (phase_begin ph s) = s_now s /\ s_phase (phase_begin ph s) = ph /\ s_readonly (phase_begin ph s) = s_readonly s
+  /\ s_ready (phase_begin ph s) = s_ready s /\ halted (phase_begin ph s) = halted s /\ s_mt (phase_begin ph s) = 0%N
+  /\ s_queue (phase_begin ph s) = s_queue s /\ nwb (s_log (phase_begin ph s)) = nwb (s_log s).
+Proof.
+  intros ph s. unfold phase_begin.
+  set (s1 := set_mt 0 (set_phase ph s)).
+  destruct (add_log_top (LPhase (s_now s1) ph) s1) as ((C1 & C2 & C3 & C4) & E & O & R).
+  repeat split; try (rewrite C1; reflexivity); try (rewrite C2; reflexivity); try (rewrite C3; reflexivity);
+    try (rewrite C4; reflexivity); try (rewrite R; reflexivity).
+  - unfold halted. rewrite E, O. reflexivity.
+  - unfold add_log. destruct (s_err s1); reflexivity.
+  - rewrite add_log_log. destruct (s_err s1); reflexivity.
 Qed.
 
 (* ------------------------------------------------------------------------- *)
